@@ -28,6 +28,7 @@ type InFlight struct {
 	Done     bool // delivered (tx succeeded) or given up
 	Fails    int
 	TimedOut bool // the packet can no longer be received; a MsgTimeout goes to the sender instead
+	FromProv bool // sent by the provider chain
 }
 
 // Link is the relayer's view of one provider<->consumer pair.
@@ -195,7 +196,7 @@ func (r *Relayer) observeProviderBlock(c *Chain, res *abci.ResponseFinalizeBlock
 		if l == nil {
 			continue
 		}
-		l.ToCons = append(l.ToCons, &InFlight{Packet: p, Height: h, SentStep: r.W.Step})
+		l.ToCons = append(l.ToCons, &InFlight{Packet: p, Height: h, SentStep: r.W.Step, FromProv: true})
 	}
 	for _, a := range parseAcks(evs) {
 		l := r.linkByProvChannel(a.Packet.DestinationPort, a.Packet.DestinationChannel)
@@ -278,7 +279,8 @@ func (w *World) relayBatch(l *Link, queue *[]*InFlight, n int, src, dst *Chain, 
 		if f.Ack == nil {
 			if p.TimeoutTimestamp != 0 && uint64(w.Now.UnixNano()) >= p.TimeoutTimestamp {
 				f.Done, f.TimedOut = true, true
-				l.Timeouts = append(l.Timeouts, &InFlight{Packet: p, Height: f.Height, SentStep: f.SentStep})
+				l.Timeouts = append(l.Timeouts, &InFlight{Packet: p, Height: f.Height, SentStep: f.SentStep, FromProv: f.FromProv})
+				w.Infof("relayer: packet %s/%s seq=%d timed out (timeout %d, now %d)", p.SourcePort, p.SourceChannel, p.Sequence, p.TimeoutTimestamp, w.Now.UnixNano())
 				continue
 			}
 			key := host.PacketCommitmentKey(p.SourcePort, p.SourceChannel, p.Sequence)
@@ -295,9 +297,10 @@ func (w *World) relayBatch(l *Link, queue *[]*InFlight, n int, src, dst *Chain, 
 				return
 			}
 			f.Fails++
+			w.Infof("relayer: delivery of %s/%s seq=%d failed (%d): %s", p.SourcePort, p.SourceChannel, p.Sequence, f.Fails, logOf(o))
 			if f.Fails >= 6 {
 				f.Done = true
-				w.Event("_tx", "relayer-gave-up:"+tag)
+				w.Event("_tx", "relayer-gave-up")
 			}
 		}})
 		k++
@@ -318,14 +321,14 @@ func (w *World) timeoutSpecs(l *Link, sender, cp *Chain, clientOnSender string) 
 	for _, f := range l.Timeouts {
 		f := f
 		p := f.Packet
-		fromSender := (sender.IsProvider && (p.SourcePort == "provider" || (p.SourcePort == "transfer" && p.SourceChannel == l.XferProv))) ||
-			(!sender.IsProvider && (p.SourcePort == "consumer" || (p.SourcePort == "transfer" && p.SourceChannel == l.XferCons)))
+		fromSender := sender.IsProvider == f.FromProv
 		if !fromSender {
 			continue
 		}
 		// the counterparty must have a committed header whose time is past the timeout
 		hdr := cp.TC.LatestCommittedHeader
 		if hdr == nil || uint64(hdr.GetTime().UnixNano()) < p.TimeoutTimestamp {
+			w.Infof("relayer: timeout of %s/%s seq=%d on %s waits for a later header of %s", p.SourcePort, p.SourceChannel, p.Sequence, sender.ID, cp.ID)
 			continue
 		}
 		specs = append(specs, TxSpec{Signer: w.relayerFor(sender), Msgs: []sdk.Msg{w.timeoutMsg(p, cp, sender)}, Tag: "relay-timeout:" + l.CID, OnResult: func(o TxOutcome) {
@@ -335,8 +338,10 @@ func (w *World) timeoutSpecs(l *Link, sender, cp *Chain, clientOnSender string) 
 				return
 			}
 			f.Fails++
+			w.Infof("relayer: timeout of %s/%s seq=%d failed (%d): %s", p.SourcePort, p.SourceChannel, p.Sequence, f.Fails, logOf(o))
 			if f.Fails >= 4 {
 				f.Done = true
+				w.Event("_tx", "relayer-gave-up")
 			}
 		}})
 	}
